@@ -47,7 +47,7 @@ MANIFEST = {
 
 def plan(tier):
     t = 400 if tier == "quick" else 900
-    parts = ["0:0,1:0", "0:1,1:0"] + [f"0:{d},1:{n},2:{k}" for d in range(2) for n in (1, 2) for k in range(6)]
+    parts = ["0:0,1:0", "0:1,1:0"] + [f"0:{d},1:{n},2:{k}" for d in range(2) for n in (1, 2) for k in range(7)]
     return [
         K("conformance", "harness.walk", "conformance_job", "shim builders vs real mypy", timeout=1200),
         K("k_ids", "kjobs.c12", "id_from_stack", "ids = owner path + '/' + name; injective on identifier names"),
